@@ -68,8 +68,16 @@ def run(tier, seed, opens):
         if rng.random() < 0.15:
             # header fields whose four bytes are hexadecimal digits in ASCII (about fifty mainnet nonces are)
             asc = lambda: int.from_bytes(bytes(rng.choice(b'0123456789abcdefABCDEF') for _ in range(4)), 'big')
-            which = rng.randrange(4)
-            if which == 0:
+            which = rng.randrange(6)
+            if which >= 4:
+                # a crafted header: all 32 bytes of a hash field are hexadecimal digits in ASCII
+                h32 = bytes(rng.choice(b'0123456789abcdef') for _ in range(32))
+                if which == 4:
+                    merkle = h32
+                else:
+                    prev = h32
+                header = wire.le(version, 4) + prev[::-1] + merkle[::-1] + wire.le(tm, 4) + wire.le(bits, 4) + wire.le(nonce, 4)
+            elif which == 0:
                 nonce = asc()
             elif which == 1:
                 version = asc()
